@@ -1117,7 +1117,9 @@ impl World for BoxWorld {
                         Fault::Fill { value, .. } => format!("{}:{}", fault.kind(), value),
                         _ => fault.kind().to_string(),
                     };
-                    let key = (fk, d.combined.len(), d.body.len());
+                    // the error may legitimately mention the length of everything the caller passed,
+                    // including its (possibly oversize) message buffer
+                    let key = (format!("{}+{}", fk, *oversize), d.combined.len(), d.body.len());
                     match self.err_texts.get(&key) {
                         Some(prev) if prev != t => {
                             out.violate(
